@@ -288,6 +288,17 @@ func ruleBitList(c *Ctx) {
 		n.BindParams(fn, "bl", "b", "count")
 		addBit := c.P.Func("utils.(*BitList).AddBit")
 		calls := callsTo(fn, addBit)
+		if m.name == "AddByte" && len(calls) == 0 {
+			// AddByte(b) written as AddBits(b, 8): the bit order is then the one checked for AddBits
+			if del := callsTo(fn, c.P.Func("utils.(*BitList).AddBits")); len(del) == 1 && enclosingLoopHeader(del[0].Block()) == nil {
+				a := del[0].Common().Args
+				c.expectPoly(R3, "utils.(*BitList).AddByte/delegate-list", del[0].Pos(), n, a[0], "bl")
+				c.expectPoly(R3, "utils.(*BitList).AddByte/delegate-value", del[0].Pos(), n, a[1], "b")
+				c.expectPoly(R3, "utils.(*BitList).AddByte/delegate-count", del[0].Pos(), n, a[2], "8")
+				c.expectCond(R3, "utils.(*BitList).AddByte/delegate-always", del[0].Pos(), n.ReachCond(fn, nil, del[0].Block()), "true")
+				continue
+			}
+		}
 		if len(calls) != 1 {
 			c.Check(R3, "utils.(*BitList)."+m.name+"/shape", fn.Pos(), false, "one AddBit call in a loop", fmt.Sprint(len(calls)))
 			continue
@@ -735,7 +746,7 @@ func ruleGFArith(c *Ctx) {
 		if site == nil {
 			c.Check(R4, "utils.(*ReedSolomonEncoder).getPolynomial/append", fn.Pos(), false, "a store extending the cache", "none")
 		} else {
-			F := site.Fn
+			_ = site.Fn
 			st := site.Ins.(*ssa.Store)
 			n.Ctx = site.Path
 			// appended value
@@ -794,22 +805,45 @@ func ruleGFArith(c *Ctx) {
 					}
 					c.Check(R4, "utils.(*ReedSolomonEncoder).getPolynomial/one-append-per-iteration", st.Pos(), onAll, "exactly one append per loop iteration", fmt.Sprint(onAll))
 				}
-				got := n.Norm(appended).String()
-				want := "call:utils.(*GFPoly).Multiply(TOP,call:utils.NewGFPoly(rs.gf,slice(&alloc:" + c.P.FuncName(F) + ".slicelit,,)))"
-				c.Check(R4, "utils.(*ReedSolomonEncoder).getPolynomial/next", appended.Pos(), got == want, "last.Multiply(NewGFPoly(gf, {1, root}))", got)
-				// the factor literal {1, ALogTbl[len-1+Base]}
-				if mul, ok := appended.(*ssa.Call); ok && len(mul.Common().Args) == 2 {
-					if ng, ok := mul.Common().Args[1].(*ssa.Call); ok && len(ng.Common().Args) == 2 {
-						el := variadicElems(ng.Common().Args[1])
-						for k, wantE := range map[int]string{0: "1", 1: "rs.gf.ALogTbl[" + MustRef("LEN - 1 + rs.gf.Base").String() + "]"} {
-							gotE := "missing"
-							if el[k] != nil {
-								gotE = n.Norm(el[k]).String()
-							}
-							c.Check(R4, fmt.Sprintf("utils.(*ReedSolomonEncoder).getPolynomial/factor[%d]", k), ng.Pos(), gotE == wantE, wantE, gotE)
+				// next = last.Multiply(NewGFPoly(gf, {1, root})); the factor may be built by a helper
+				okNext, got := false, n.Norm(appended).String()
+				var ng *ssa.Call
+				ctxBefore := n.Ctx
+				if mul, ok := appended.(*ssa.Call); ok && len(mul.Common().Args) == 2 && calleeOf(mul) != nil && c.P.FuncName(calleeOf(mul)) == "utils.(*GFPoly).Multiply" && n.Norm(mul.Common().Args[0]).String() == "TOP" {
+					fv := mul.Common().Args[1]
+					for d := 0; d < 3; d++ {
+						fc, ok := fv.(*ssa.Call)
+						if !ok || calleeOf(fc) == nil {
+							break
 						}
+						if c.P.FuncName(calleeOf(fc)) == "utils.NewGFPoly" {
+							ng = fc
+							break
+						}
+						g := calleeOf(fc)
+						if !isRepoFunc(g) || g.Blocks == nil || len(returnsOf(g)) != 1 || len(returnsOf(g)[0].Results) != 1 {
+							break
+						}
+						n.Ctx = append(append([]ssa.CallInstruction{}, n.Ctx...), fc)
+						fv = returnsOf(g)[0].Results[0]
+					}
+					if ng != nil && len(ng.Common().Args) == 2 {
+						okNext = n.Norm(ng.Common().Args[0]).String() == "rs.gf"
 					}
 				}
+				c.Check(R4, "utils.(*ReedSolomonEncoder).getPolynomial/next", appended.Pos(), okNext, "last.Multiply(NewGFPoly(gf, {1, root}))", got)
+				// the factor literal {1, ALogTbl[len-1+Base]}
+				if ng != nil && len(ng.Common().Args) == 2 {
+					el := variadicElems(ng.Common().Args[1])
+					for k, wantE := range map[int]string{0: "1", 1: "rs.gf.ALogTbl[" + MustRef("LEN - 1 + rs.gf.Base").String() + "]"} {
+						gotE := "missing"
+						if el[k] != nil {
+							gotE = n.Norm(el[k]).String()
+						}
+						c.Check(R4, fmt.Sprintf("utils.(*ReedSolomonEncoder).getPolynomial/factor[%d]", k), ng.Pos(), gotE == wantE && len(el) == 2, wantE, gotE)
+					}
+				}
+				n.Ctx = ctxBefore
 				n.Ctx = nil
 				c.expectCond(R4, "utils.(*ReedSolomonEncoder).getPolynomial/extend-iff", st.Pos(), n.ReachCondDeep(fn, nil, *site), "LEN <= degree")
 			}
